@@ -156,8 +156,6 @@ local function _lua_invoke(mod_name, fn_name, frame, page_title, timeout)
 
     local mod_env = _mw_clone(_python_top_env() or _G)
     _python_append_env(mod_env)
-    -- Set time limit for execution of the Lua code
-    _lua_set_timeout(timeout)
 
     -- Load the module.  Note that the initializations above must be done before
     -- loading the module, as the module could refer to, e.g., page title
@@ -185,7 +183,6 @@ local function _lua_invoke(mod_name, fn_name, frame, page_title, timeout)
     end
     -- Call the function in the module
     local st, v = pcall(fn, frame)
-    _lua_clear_timeout_hook()
     -- print("Lua sandbox:", tostring(v))
     if type(v) == "string" then
         return st, v
